@@ -178,7 +178,21 @@ impl Block for Probe {
         let r = self.inner.work();
         drop(guard);
         let moved = rec::thread_data_events() != before;
-        *self.stats.last.lock().unwrap() = (verdict_code(&r), moved);
+        let mut code = verdict_code(&r);
+        if moved {
+            if let Ok(BlockRet::WaitForStream(s, _)) = &r {
+                // Which side does the wait name? A non-blocking wait(0) passes the
+                // yield point of the read or of the write side.
+                rec::reset_wait_dir();
+                let _ = s.wait(0);
+                code = match rec::wait_dir() {
+                    1 => 6, // wait on an input
+                    2 => 7, // wait on an output
+                    _ => 3,
+                };
+            }
+        }
+        *self.stats.last.lock().unwrap() = (code, moved);
         if r.is_err() {
             self.stats.errors.fetch_add(1, Ordering::SeqCst);
         }
